@@ -96,3 +96,7 @@ def addc(*cs):
 
 def bitsum(terms):
     return z3.Sum([Z(0)] + [(1 << i) * t for i, t in enumerate(terms)])
+
+
+# frame of the functions that enter / leave a guarded region (and of client programs that use them)
+GUARD_STATE = ("pysnark.runtime:guard", "pysnark.runtime:_ignore_errors", "pysnark.runtime:LinComb.ONE")
